@@ -159,8 +159,10 @@ def analyse(meta, run, gen_path):
                     ext_clause = True   # precondition of a vstd/core specification: unwrap, index, slice, panic...
                     clause = f"{sp.get('file_name')}:{sp.get('line_start')}"
         if kind in ("inv", "hint") and prim is not None:
-            tags += tags_on_lines(prim["line_start"], prim["line_end"])
-            clause = b"\n".join(gen_lines[prim["line_start"] - 1:prim["line_end"]]).decode(errors="replace").strip()[:300]
+            # a loop `ensures` / invariant reported at a loop exit: the clause is the span labelled "failed this invariant"
+            cl = next((inner for lab, sp, inner in labels if lab and "failed this invariant" in lab and inner is not None), None) or prim
+            tags += tags_on_lines(cl["line_start"], cl["line_end"])
+            clause = b"\n".join(gen_lines[cl["line_start"] - 1:cl["line_end"]]).decode(errors="replace").strip()[:300]
         if kind == "closure-post":
             kind = "inv"      # an internal obligation: the contract spliced onto a closure literal
         if kind == "pre":
